@@ -110,14 +110,23 @@ PROPS["C12"] = dict(
     assumptions=[],
 )
 
+H3 = "h3/connection.py::"
+H3INT = "int(<bytes>) for content-length is a TRUSTED stub (contracts/h3_headers.py, contract 'int'): two uninterpreted functions py_int_ok / py_int_val of the byte string plus the grammar facts G1-G4 (empty rejected; all-digit strings of length 1..4300 accepted with a non-negative value; an accepted string has a digit and only bytes of {HT LF VT FF CR SP + - _ 0-9}; a negative value needs '-'), i.e. CPython's  ws* [+-]? digit+ ('_' digit+)* ws*  -  b'+5', b' 5 ', b'1_0', b'\\x0b5' ARE accepted content-lengths; cross-checked against CPython by tools/xcheck_pyint.py (446 207 strings, 0 disagreements)"
+H3SET = "set[bytes] / frozenset[bytes] values are arrays over integer ids bkey(b) of byte strings; assumed: bkey(a) == bkey(b) <=> a and b are equal byte strings (sym.bkey_axiom; a model exists: any injective numbering), and every member of a set[bytes] is the id of some byte string (sym.wf); frozenset(<tuple display>), set.add, set.difference, `in`, truthiness are interpreted over these arrays"
+H3QPACK = "H3Connection._decode_headers (pylsqpack boundary): assumed to return a list of (bytes, bytes) pairs or raise QpackDecompressionFailed / pylsqpack.StreamBlocked, and not to touch H3Stream bookkeeping; not verified"
+H3FRAME = "modifies clauses are trusted by the engine (no frame check); for the H3Stream bookkeeping fields the frame is instead PROVED as explicit quantified ensures (h3_streams_untouched / the frame clause of validate_headers)"
 PROPS["C15"] = dict(
-    functions=["h3/connection.py::validate_header_name", "h3/connection.py::validate_header_value"],
+    functions=[
+        H3 + "validate_header_name", H3 + "validate_header_value", H3 + "validate_headers",
+        H3 + "validate_request_headers", H3 + "validate_response_headers", H3 + "validate_trailers", H3 + "validate_push_promise_headers",
+        H3 + "H3Connection._check_content_length", (H3 + "H3Connection._handle_request_or_push_frame", 4),
+    ],
     bounded=["native-xcheck-h3"],
-    scope="decided for all byte strings: validate_header_name raises MessageError exactly when some byte is a control/space (<=0x20), upper-case, DEL/non-ASCII (>=0x7F) or a non-initial colon; validate_header_value raises exactly when the value contains NUL/CR/LF or starts or ends with SP/HTAB",
-    lemma="name/value clauses of C15 = raises-iff (both directions, existential over positions, loop invariants) of the two validators",
-    not_decided="pseudo-header ordering / allow-list / required-list in validate_headers (sets of bytes, int(bytes)), content-length accounting, that every event is preceded by validation",
-    trusted_base=BASE,
-    assumptions=[],
+    scope="decided for ALL header lists (any length, any bytes) and all allowed/required sets: (1) validate_header_name / validate_header_value raise MessageError exactly when a name has a byte <= 0x20, an upper-case letter, a byte >= 0x7F or a non-initial colon / a value contains NUL, CR, LF or starts or ends with SP/HTAB; (2) validate_headers raises MessageError exactly when the block is not h3_block_ok: some name or value is bad, a pseudo-header follows a regular header, a pseudo-header is repeated or not in the allowed set, a required pseudo-header is missing, or one of the implementation's extra rules fails (content-length not a non-negative int() spelling, transfer-encoding other than 'trailers', http(s) :scheme without non-empty :authority and :path) - both directions - and on return stream.expected_content_length is the value of the LAST content-length field (unchanged when there is none), no other stream bookkeeping is written; (3) the four wrappers raise exactly when the block is not a well-formed request (:method and :authority present, pseudo-headers among :method :scheme :authority :path :protocol), response (:status present, no other pseudo-header), trailers (no pseudo-header at all), push promise (exactly the four request pseudo-headers) - names spelled out as byte-string comparisons; (4) _check_content_length raises exactly when a declared content-length differs from the bytes counted; (5) _handle_request_or_push_frame: a HeadersReceived / PushPromiseReceived event is the only event of its call and carries exactly the list object the validator of the right kind (response on clients, request on servers, trailers after the first block) accepted; a DATA frame adds exactly len(frame_data) to stream.content_length and yields at most one DataReceived with that payload; whenever a DATA or HEADERS frame ends the stream and the call returns, expected_content_length is None or equals content_length; MessageError escapes only for a block that breaks a rule or for a content-length mismatch at the end of the stream (never accused); other frame types produce no event and leave the bookkeeping alone",
+    lemma="C15 sentence 1 (names, values, pseudo-header order / uniqueness / allow-list, :method / :status / none on trailers) = raises-iff of the four wrappers, which are proved from the raises-iff of validate_headers by instantiating its abstract allowed / required sets with the frozenset displays in the source, which in turn uses the raises-iff of validate_header_name / validate_header_value per item; 'handed to the application' = the only places that construct HeadersReceived / PushPromiseReceived are in _handle_request_or_push_frame, whose ensures tie the event's list to the validated one; content-length clause = (a) validate_headers records the declared value, (b) every DATA payload delivered through _handle_request_or_push_frame is counted (ensures.0), (c) a stream-ending DATA / HEADERS frame returns only if _check_content_length accepted (ensures.3); sentence 2 (the rule breaker gets MessageError instead of the event) = the same iff read right-to-left plus on_raise.MessageError; that MessageError becomes close(H3_MESSAGE_ERROR) is the class attribute error_code of MessageError handled in handle_event (not under contract)",
+    not_decided="H3Connection._receive_request_or_push_data is NOT under contract: its DATA-fragment shortcut (adds len(buffer) to content_length and emits the same bytes) and its lone-FIN branch (calls _check_content_length before emitting the final DataReceived) are read, not proved; so is handle_event's mapping of MessageError to H3_MESSAGE_ERROR and the claim that no other code constructs these events. FINDINGS kept as separate clauses (contracts/h3_headers.py C15_FINDING_CLAUSES, enabled with C15_STRICT=1, natively reproduced by tools/repro_c15_findings.py): F1 several content-length fields with different values are accepted and only the last is compared with the body; observation F2: a stream ended by a frame of unknown type (e.g. GREASE 0x21 with FIN) gets neither the content-length check nor any end-of-stream event. Seeded defect 2 (content-length no longer ends the pseudo-header section) is NOT discharged (loop0.preserve of the after_pseudo_headers invariant) but the solver returns unknown rather than a model; the bounded cross-check native-xcheck-h3 produces the concrete failing block",
+    trusted_base=BASE + [H3INT, H3SET, H3QPACK, H3FRAME, "qlog calls QuicLoggerTrace.log_event / encode_http3_* are stubs (total, no effect on modelled state)", "Buffer: contracts/buffer_model.py (Python-level restatement of the cwp-proved C contract)"],
+    assumptions=[H3INT, H3SET, H3QPACK, A2],
 )
 
 PROPS["C17"] = dict(
